@@ -67,18 +67,54 @@ func constBool(n *node) (b, ok bool) {
 	return false, false
 }
 
-// compareConst folds the comparison of two untyped constant operands.
+// isBinVar returns true if node n denotes a variable of a binary package.
+func isBinVar(n *node) bool {
+	if n.kind != selectorExpr || n.action != aGetSym || len(n.child) == 0 || !n.rval.IsValid() {
+		return false
+	}
+	s := n.child[0].sym
+	return s != nil && s.kind == pkgSym && s.typ != nil && s.typ.cat == binPkgT && n.rval.CanAddr()
+}
+
+// constOperand returns the value of a constant operand, untyped or typed, as a constant.
+func constOperand(n *node) (c constant.Value, ok bool) {
+	v := n.rval
+	if !v.IsValid() || isBinVar(n) {
+		return nil, false
+	}
+	if isConstantValue(v.Type()) {
+		c = vConstantValue(v)
+		return c, c.Kind() != constant.Unknown
+	}
+	switch v.Kind() {
+	case reflect.Bool:
+		c = constant.MakeBool(v.Bool())
+	case reflect.String:
+		c = constant.MakeString(v.String())
+	case reflect.Int, reflect.Int8, reflect.Int16, reflect.Int32, reflect.Int64:
+		c = constant.MakeInt64(v.Int())
+	case reflect.Uint, reflect.Uint8, reflect.Uint16, reflect.Uint32, reflect.Uint64, reflect.Uintptr:
+		c = constant.MakeUint64(v.Uint())
+	case reflect.Float32, reflect.Float64:
+		c = constant.MakeFloat64(v.Float())
+	case reflect.Complex64, reflect.Complex128:
+		z := v.Complex()
+		c = constant.BinaryOp(constant.MakeFloat64(real(z)), token.ADD, constant.MakeImag(constant.MakeFloat64(imag(z))))
+	default:
+		return nil, false
+	}
+	return c, c.Kind() != constant.Unknown
+}
+
+// compareConst folds the comparison of two constant operands, untyped or typed.
 func compareConst(n *node) {
 	tok, ok := constCmp[n.action]
 	if !ok {
 		return
 	}
-	v0, v1 := n.child[0].rval, n.child[1].rval
-	if !isConstantValue(v0.Type()) || !isConstantValue(v1.Type()) {
-		return
-	}
-	c0, c1 := vConstantValue(v0), vConstantValue(v1)
-	if c0.Kind() == constant.Unknown || c1.Kind() == constant.Unknown {
+	c0, ok0 := constOperand(n.child[0])
+	c1, ok1 := constOperand(n.child[1])
+	if !ok0 || !ok1 {
 		return
 	}
 	if (c0.Kind() == constant.String) != (c1.Kind() == constant.String) || (c0.Kind() == constant.Bool) != (c1.Kind() == constant.Bool) {
